@@ -232,6 +232,20 @@ class SigmaFilter(SigmaRuleBase):
         if not self._should_apply_on_rule(rule) or isinstance(rule, SigmaCorrelationRule):
             return rule
 
+        # Identifiers of the filter condition must be defined by the filter. This is checked before
+        # they are renamed with a random prefix, else the error would name the renamed identifier.
+        for token in re.findall(r"[a-zA-Z0-9*_][a-zA-Z0-9*_-]*", self.filter.condition[0]):
+            if (
+                token not in self._CONDITION_KEYWORDS
+                and token != "them"
+                and "*" not in token
+                and token not in self.filter.detections
+            ):
+                raise sigma_exceptions.SigmaConditionError(
+                    f"Detection '{token}' not defined in detections of filter '{self.title}'",
+                    source=self.source,
+                )
+
         # Generate one random prefix shared by all filter identifiers in this application.
         # Using a single prefix (rather than a fresh random name per identifier) preserves
         # the structure of the original identifier names so that wildcard patterns in the
